@@ -361,7 +361,8 @@ def handle (ss : Session) : P (Session × String) := do
     -- World.run / shutdown control flow: n simulators, how the run phase ended
     let n ← nat; let kind ← tok
     let e : RunShutdown.RunEnd := match kind with
-      | "ok" => .ok | "keyboard" => .keyboardInterrupt | "remote-exception" => .remoteException | _ => .other 1
+      | "ok" => .ok | "keyboard" => .keyboardInterrupt | "remote-exception" => .remoteException | "systemexit" => .systemExit
+      | _ => .other 1
     let (w, sf) := RunShutdown.run (fun _ => none) { n := n } e
     let (w2, _) := RunShutdown.shutdown (fun _ => none) w
     pure (ss, (match sf with | .returned => "returned" | .raised _ => "raised") ++
